@@ -202,6 +202,87 @@ def h_reproject(kx, ky, mx, my, padmode, align, rot=None, pin="none"):
         prove("no_paste_when_not_tight", rr.paste_ok is False or rr.paste_ok == False)  # noqa: E712
 
 
+class _GenTr:
+    """a point transform that is NOT declared linear (what two different CRSs give): the pixel map
+    itself is the pair's affine -- one admissible instance of a CRS change -- so every clause of
+    the statement can be evaluated exactly; calls are recorded"""
+
+    def __init__(self, lin, log, back=None):
+        self._lin, self._log, self._back = lin, log, back
+
+    linear = None
+
+    @property
+    def back(self):
+        if self._back is None:
+            self._back = _GenTr(self._lin.back, self._log, self)
+        return self._back
+
+    def __call__(self, pts):
+        pts = list(pts)
+        self._log.append((self, pts))
+        return self._lin(pts)
+
+
+def h_reproject_general(kx, ky, mx, my, padmode, align, pin="none"):
+    """the general (different-CRS) planning path, with the CRS change standing in as a transform
+    that is not declared linear: regions within the images, needed pixels kept, the scale measured
+    at the CENTRE of the destination region through the transform, never pasteable"""
+    ov = ovm()
+    from affine import Affine
+    from odc.geo.types import xy_
+
+    src, dst, L, t, (Nsy, Nsx, Ndy, Ndx) = mk_pair(kx, ky, mx, my, None, bound=True, pin=pin)
+    kw, pad = _opts(padmode, align)
+    log = []
+    saved = (ov.native_pix_transform, ov.affine_from_pts)
+    ov.native_pix_transform = lambda s_, d_: _GenTr(saved[0](s_, d_), log)
+
+    def affine_from_5(XX, YY):
+        # least squares on exactly affine data returns that affine: centre + unit steps
+        (c0, xm, ym, xp, yp), (d0, dxm, dym, dxp, dyp) = XX, YY
+        a = (dxp.x - dxm.x) / (xp.x - xm.x)
+        d_ = (dxp.y - dxm.y) / (xp.x - xm.x)
+        b = (dyp.x - dym.x) / (yp.y - ym.y)
+        e = (dyp.y - dym.y) / (yp.y - ym.y)
+        return Affine(a, b, d0.x - a * c0.x - b * c0.y, d_, e, d0.y - d_ * c0.x - e * c0.y)
+
+    ov.affine_from_pts = affine_from_5
+    try:
+        rr = ov.compute_reproject_roi(src, dst, **kw)
+    finally:
+        ov.native_pix_transform, ov.affine_from_pts = saved
+    (sy_, sx_), (dy_, dx_) = rr.roi_src, rr.roi_dst
+    prove("not_pasteable", rr.paste_ok is False or rr.paste_ok == False)  # noqa: E712
+    prove("roi_dst_within", And(0 <= dx_.start, dx_.stop <= Ndx, 0 <= dy_.start, dy_.stop <= Ndy))
+    prove("roi_src_within", And(0 <= sx_.start, sx_.stop <= Nsx, 0 <= sy_.start, sy_.stop <= Nsy))
+    u, v = Int("u"), Int("v")
+    assume(And(0 <= u, u < Ndx, 0 <= v, v < Ndy))
+    sx, sy = src_of(L, t, u + F(1, 2), v + F(1, 2))
+    inside = And(sx >= 0, sx < Nsx, sy >= 0, sy < Nsy)
+    fx, fy = symx.s_floor(sx), symx.s_floor(sy)
+    prove("needed_dst_col", And(dx_.start <= u, u < dx_.stop), when=inside)
+    prove("needed_dst_row", And(dy_.start <= v, v < dy_.stop), when=inside)
+    prove("needed_src_col", And(sx_.start <= fx, fx < sx_.stop), when=inside)
+    prove("needed_src_row", And(sy_.start <= fy, fy < sy_.stop), when=inside)
+    empty = Or(dx_.stop <= dx_.start, dy_.stop <= dy_.start)
+    if bool(empty):
+        prove("empty_plan_reports_no_scale", And(ex(rr.scale) == 0, _rs(rr) == 1))
+        return
+    # the scale was measured through the transform around the centre of roi_dst, (x, y) = (column, row)
+    probes = [pts for tr_, pts in log if len(pts) == 5]
+    prove("scale_measured_once_through_the_transform", len(probes) == 1)
+    c0 = probes[0][0]
+    prove("scale_measured_at_the_centre_of_the_overlap", And(ex(c0.x) * 2 == dx_.start + dx_.stop, ex(c0.y) * 2 == dy_.start + dy_.stop))
+    kxf, kyf = F(kx), F(ky)
+    prove("scale2", And(ex(rr.scale2.x) == kxf, ex(rr.scale2.y) == kyf))
+    prove("scale_is_min", ex(rr.scale) == min(kxf, kyf))
+    k = _rs(rr)
+    smin = min(kxf, kyf)
+    prove("read_shrink_contract", And(k >= 1, k > smin - 1, Or(smin < 1, k <= smin + F(1e-3)), Or(smin >= 1, k == 1)))
+
+
+
 def h_separated(kx, ky, mx, my, padmode, align, axis):
     ov = ovm()
     src, dst, L, t, (Nsy, Nsx, Ndy, Ndx) = mk_pair(kx, ky, mx, my, None, bound=True)
@@ -312,6 +393,12 @@ OBLIGATIONS = [
     Ob("R5_reproject_roi_rotated", h_reproject, lambda tier, rng: _rot_cfgs(tier),
        descr="same, destination rotated by a rational rotation (padded sampled path)", functions=("odc.geo.overlap.compute_reproject_roi", "odc.geo.overlap._relative_rois"),
        bounds="rotation grid {(3/5,4/5),(5/13,12/13),(0,1)}; quick: image sizes pinned (50x60 / 40x30), origins and probe symbolic", stubs=("NumpyModel",), setup=setup, timeout_ms=30000, deadline_s=2400),
+    Ob("R7_general_path", h_reproject_general,
+       tiered([dict(kx="1", ky="1", mx=1, my=1, padmode="none", align=0, pin="y:subpixel"), dict(kx="2", ky="3", mx=1, my=-1, padmode="none", align=0, pin="x:aligned"), dict(kx="1/2", ky="1/2", mx=-1, my=1, padmode="sym", align=0, pin="y:shifted"), dict(kx="3/2", ky="1", mx=1, my=1, padmode="1", align=4, pin="x:subpixel")],
+              [dict(kx=a, ky=b, mx=m1, my=m2, padmode=pm, align=al, pin=pn) for a, b in (("1", "1"), ("2", "3"), ("1/2", "1/2"), ("3/2", "1")) for m1, m2 in ((1, 1), (-1, 1), (1, -1)) for pm, al in (("none", 0), ("sym", 0), ("1", 4)) for pn in ("y:subpixel", "x:aligned")]),
+       descr="the general (different-CRS) path with the CRS change standing in as a transform not declared linear (its pixel map is the pair's affine): regions within the images, needed pixels kept, scale measured through the transform at the centre of roi_dst, read_shrink contract, never pasteable",
+       functions=("odc.geo.overlap.compute_reproject_roi", "odc.geo.overlap._relative_rois", "odc.geo.overlap.get_scale_at_point", "odc.geo.roi.roi_from_points", "odc.geo.roi.roi_boundary", "odc.geo.roi.roi_center"),
+       bounds="scale grid x mirroring x padding x align; per-axis factoring; the stand-in transform is affine (curved transforms are PROJ's and outside the claim)", stubs=("NumpyModel", "native_pix_transform wrapped (linear = None, calls recorded)", "affine_from_pts contract: exact on affine data"), setup=setup_rws_stub if False else setup, timeout_ms=30000, deadline_s=2400),
     Ob("R6_separated", h_separated, lambda tier, rng: _sep_cfgs(tier), descr="rasters separated by more than the padding margin: both regions have zero area",
        functions=("odc.geo.overlap.compute_reproject_roi",), bounds="separation along one axis, either side (symbolic flag)", stubs=("NumpyModel",), setup=setup, timeout_ms=30000),
 ]
